@@ -1,6 +1,7 @@
 package props
 
 import (
+	"context"
 	"fmt"
 	"math/rand"
 	"net/url"
@@ -107,14 +108,33 @@ func c01Sequential(r *core.Run, idx int, rng *rand.Rand) {
 	case "user_unknown":
 		e.W.ForgetUser(sc.U.UserID)
 	case "user_lookup_error":
+		// the lookup fails at once, after delivering part of the record, late, or while the key lookup is slow
+		kind := []string{sim.FaultError, sim.FaultPartial, sim.FaultPartial, sim.FaultError}[rng.Intn(4)]
+		switch rng.Intn(3) {
+		case 0:
+			e.W.PartialDelay = 20 * time.Millisecond
+		case 1:
+			e.W.Before = func(_ context.Context, _, op string, _ int) {
+				if op == "GetResponseSigningKey" {
+					time.Sleep(20 * time.Millisecond)
+				}
+			}
+		}
 		e.W.Plan = func(tag, op string, occ int) string {
 			if op == "SetUserinfoWithUserID" {
-				return sim.FaultError
+				return kind
 			}
 			return ""
 		}
 	case "key_fault":
 		kind := []string{sim.FaultError, sim.FaultNilRecord, sim.FaultKeyNoCert, sim.FaultCertNoKey, sim.FaultEmptyCert}[rng.Intn(5)]
+		if rng.Intn(3) == 0 { // the user lookup is slower than the failing key lookup
+			e.W.Before = func(_ context.Context, _, op string, _ int) {
+				if op == "SetUserinfoWithUserID" {
+					time.Sleep(20 * time.Millisecond)
+				}
+			}
+		}
 		e.W.Plan = func(tag, op string, occ int) string {
 			if op == "GetResponseSigningKey" {
 				return kind
@@ -129,7 +149,7 @@ func c01Sequential(r *core.Run, idx int, rng *rand.Rand) {
 	}
 	// id placement
 	id := sc.S.ID
-	placement := []string{"query", "body", "both_same", "query_other_body_own", "query_own_body_other", "duplicate_query", "empty", "blank", "overlong", "none", "case_changed", "padded"}[rng.Intn(12)]
+	placement := []string{"query", "body", "both_same", "query_other_body_own", "query_own_body_other", "duplicate_query", "empty", "blank", "overlong", "none", "case_changed", "padded", "percent_alias_of_other", "escaped_twice", "percent_alias_of_other_body"}[rng.Intn(15)]
 	method := []string{"GET", "GET", "POST", "POST", "HEAD", "PUT"}[rng.Intn(6)]
 	var q, body string
 	supplied := []string{}
@@ -177,6 +197,24 @@ func c01Sequential(r *core.Run, idx int, rng *rand.Rand) {
 	case "padded":
 		q = "id=" + esc(id+" ")
 		supplied = []string{id + " "}
+	case "percent_alias_of_other", "percent_alias_of_other_body":
+		// a value that still contains a percent sequence after form decoding and whose second decoding would be the
+		// id of the other, completed session: it names no stored request
+		o := other.S.ID
+		k := rng.Intn(len(o))
+		alias := o[:k] + fmt.Sprintf("%%%02X", o[k]) + o[k+1:]
+		if rng.Intn(2) == 0 {
+			alias = o[:k] + fmt.Sprintf("%%%02x", o[k]) + o[k+1:]
+		}
+		supplied = []string{alias}
+		if placement == "percent_alias_of_other" {
+			q = "id=" + esc(alias)
+		} else {
+			body, method = "id="+esc(alias), "POST"
+		}
+	case "escaped_twice":
+		q = "id=" + esc(esc(id))
+		supplied = []string{esc(id)}
 	}
 	call := e.Do(env.Req{Method: method, Path: env.PathLogin, Query: q, Body: body, Host: sc.Host})
 	class := fmt.Sprintf("%s|%s|%s|%s|%s", state, late, placement, method, sc.S.Binding[strings.LastIndex(sc.S.Binding, ":")+1:])
@@ -433,7 +471,7 @@ func init() {
 		TimeoutQuick: 8 * time.Minute, TimeoutThorough: 40 * time.Minute,
 		Build: func(c *Ctx) []core.Workload {
 			r := c.Run
-			r.Rule = "(a) sequential: a stored request in state absent / pending / done (plus the late failures user unknown, user lookup error, signing-key fault, unusable algorithm, unknown application) is called back with the id in query, body, both with different values, duplicated, empty, blank, overlong, case-changed or padded, by GET/POST/HEAD/PUT; a second completed session of another user lives in the same world. Online monitor on the request's tagged storage-log slice: Success => 'found and Done()=true' was observed for a supplied id; non-Success => no NameID, attribute value, signature or user canary anywhere in the fully decoded reply. (b) concurrent histories: 8 sessions created through the real SSO endpoint, 6 clients racing completions and callbacks with delays injected in storage calls; each history is checked with porcupine against a per-session register model (a callback may succeed only after completion). Distinct = (state, late failure, placement, method, binding) resp. histories."
+			r.Rule = "(a) sequential: a stored request in state absent / pending / done (plus the late failures user unknown, user lookup error, signing-key fault, unusable algorithm, unknown application) is called back with the id in query, body, both with different values, duplicated, empty, blank, overlong, case-changed, padded, escaped twice or as a percent-sequence alias of the other session's id, by GET/POST/HEAD/PUT; a second completed session of another user lives in the same world. Online monitor on the request's tagged storage-log slice: Success => 'found and Done()=true' was observed for a supplied id; non-Success => no NameID, attribute value, signature or user canary anywhere in the fully decoded reply. (b) concurrent histories: 8 sessions created through the real SSO endpoint, 6 clients racing completions and callbacks with delays injected in storage calls; each history is checked with porcupine against a per-session register model (a callback may succeed only after completion). Distinct = (state, late failure, placement, method, binding) resp. histories."
 			r.Require("success_replies", 30)
 			r.Require("non_success_replies", 200)
 			r.Require("distinct_non_success_shapes", 3)
